@@ -119,6 +119,14 @@ def cases(tier, seed):
                 for g in ("uniform", "cheb", "geom"):
                     for xg in (0, 1):
                         add(_cfg(m, bc, "None", g, n, "sorted", "init", "0d", xg, "float64"))
+        # one object called with differently batched y in a row (y given at call time)
+        for n in (4, 5):
+            for (m, bc) in MB:
+                for od in ("sorted", "shuffled"):
+                    for yb in YBATCH:
+                        c = _cfg(m, bc, "mirror", "cheb", n, od, "call", yb, 0, "float64")
+                        c["mixbatch"] = 1
+                        add(c)
     else:
         for n in (3, 4, 5, 8, 24):
             for (m, bc) in MB:
@@ -351,6 +359,11 @@ def run_case(cfg):
         if yat == "init":
             o = call(obj, xq_t)
         elif yat == "call":
+            if cfg.get("mixbatch"):
+                # call history on ONE object: first a call with a differently batched y (result discarded)
+                pb = (3,) if tuple(Y.shape[:-1]) != (3,) else (2, 2)
+                call(obj, xq_t, torch.linspace(0.0, 1.0, int(np.prod(pb)) * Y.shape[-1], dtype=Y.dtype).reshape(pb + (Y.shape[-1],)))
+                nexec[0] += 1
             o = call(obj, xq_t, Y)
         else:
             o = call(obj, xq_t, Y.flip(-1) * 0.5 + 3.0)
